@@ -399,7 +399,7 @@ func execRequire(ops []Op) []string {
 	w := newReqWorld()
 	defer w.close()
 	L := w.L
-	limit := 5 * time.Second
+	limit := 45 * time.Second
 	if atomic.LoadInt32(&c20Timeouts) > 6 {
 		limit = 250 * time.Millisecond
 	}
